@@ -135,8 +135,19 @@ Definition allocate_shipped (r : ring) (m : nat) : res :=
 Definition all_raw (r : ring) : bool :=
   match data r with Some d => forallb (fun s => match s with None => true | Some _ => false end) d | None => true end.
 
-(** deallocate(): if (data_) { clear(); deallocate; data_ = nullptr; } *)
+(** deallocate(): if (data_) { clear(); deallocate; data_ = nullptr; capacity_ = 0; }  (capacity_ is reset since the
+    fix of the stale-capacity defect: as shipped it stayed, see [deallocate_shipped]) *)
 Definition deallocate (r : ring) : res :=
+  match data r with
+  | None => ok r
+  | Some _ => let x := clear r in
+              {| buf := {| max_size := max_size (buf x); cap := 0; data := None;
+                           rbegin := rbegin (buf x); rend := rend (buf x) |};
+                 bad := bad x || negb (all_raw (buf x)) |}
+  end.
+
+(** deallocate() as shipped: capacity_ keeps its old value (kept only for the refutation lemma) *)
+Definition deallocate_shipped (r : ring) : res :=
   match data r with
   | None => ok r
   | Some _ => let x := clear r in
